@@ -69,6 +69,13 @@ impl FileTracker {
         Some(new_file_number)
     }
 
+    /// Stop tracking `file`, a file number just returned by `inc` whose file could not be created.
+    pub fn forget(&mut self, file: FileNumber) {
+        if self.files.len() > 1 {
+            self.files.remove(&file);
+        }
+    }
+
     /// Create a FileTracker from a list of file id to track.
     pub fn from_file_numbers(file_numbers: Vec<u64>) -> Option<FileTracker> {
         if file_numbers.is_empty() {
